@@ -27,7 +27,7 @@ MCStreams == {
   \* every byte offset is a cut point: all 2^(n-1) segmentations of a short Gemini and a short Titan request
   St(16, TRUE, "ok", 0, 2, 1..20),
   St(24, TRUE, "titan", 4, 6, 1..32) }
-MCChains == { <<>>, <<"allow">>, <<"deny53">>, <<"denyNoText">>, <<"raise">>,
+MCChains == { <<>>, <<"allow">>, <<"deny53">>, <<"denyNoText">>, <<"denyMalformed">>, <<"raise">>,
               <<"allow", "allow">>, <<"allow", "deny44">>, <<"deny60", "raise">>, <<"allow", "raise", "deny53">> }
 Outs == {"ok20", "ok20bytes", "ok20empty", "in10", "ok30", "err51", "cert60",
          "body51", "metaCRLF", "metaLong", "unenc", "status99", "raise", "raiseCRLF"}
